@@ -265,6 +265,11 @@ def run_cases(pid, imports, cases, chunk=250, timeout=600, defs=""):
     d = os.path.join(BUILD, pid)
     shutil.rmtree(d, ignore_errors=True)
     os.makedirs(d)
+    # the runner modules (and whatever they depend on: hand-written models, definitions generated on this run) must be up to date
+    for m in re.findall(r"\b(?:run|gen)\.[A-Za-z0-9_]+", imports):
+        ok, log, failed = compile_cone(coq_cone(m.replace(".", "/") + ".v"))
+        if not ok:
+            return [], "build of runner module %s failed at %s:\n%s" % (m, failed, log[-1500:])
     files = []
     for k in range(0, len(cases), chunk):
         fn = os.path.join(d, "cases_%d.v" % (k // chunk))
